@@ -2,8 +2,7 @@
 from __future__ import annotations
 
 
-def crc16(data: bytes) -> int:
-    crc = 0
+def crc16(data: bytes, crc: int = 0) -> int:
     for b in data:
         for i in range(8):
             bit = ((b >> i) & 1) ^ (crc & 1)
